@@ -947,7 +947,7 @@ class LangServer:
             param_num = opt_num
         signature = {"label": label, "parameters": params}
         if doc_str is not None:
-            doc_str = doc_str.format(langid=self.hover_language)
+            doc_str = doc_str.replace("```{langid}", f"```{self.hover_language}", 1)
             signature["documentation"] = {"kind": "markdown", "value": doc_str}
         req_dict = {"signatures": [signature], "activeParameter": param_num}
         return req_dict
@@ -1096,7 +1096,9 @@ class LangServer:
         def create_hover(string: str, docs: str | None):
             # This does not account for Fixed Form Fortran, but it should be
             # okay for 99% of cases
-            return fortran_md(string, docs).format(langid=self.hover_language)
+            return fortran_md(string, docs).replace(
+                "```{langid}", f"```{self.hover_language}", 1
+            )
 
         # Get parameters from request
         params: dict = request["params"]
